@@ -328,9 +328,14 @@ func (h *h5State) stateTagOpen() bool {
 		h.pos++
 		return h.stateBogusComment2()
 	case (ch >= 'a' && ch <= 'z') || (ch >= 'A' && ch <= 'Z'):
+		// a start tag: an end tag that was closed after white space, a
+		// slash or an attribute (</p >, </a b=c>) or was empty (</>) leaves
+		// isClose set
+		h.isClose = false
 		return h.stateTagName()
 	case ch == byteNull:
 		// IE-ism NULL characters are ignored
+		h.isClose = false
 		return h.stateTagName()
 	default:
 		// user input mistake in configuring state
